@@ -203,19 +203,17 @@ Definition c11_clean (c : c11_case) : Prop :=
   | KBigBatch _ _ _ _ _ _ => True
   | KWrapFault _ _ _ _ => True
   | KSnapshot _ _ _ _ _ _ _ _ => True
-  | KInterleave e _ _ _ _ _ => match e with EBadger | EWrapBadger => False | _ => True end   (* finding C11-F4 *)
+  | KInterleave _ _ _ _ _ _ => True
   end.
 
-(* what the two-transaction models predict is serialisable, on memkv and TiKV *)
-Lemma il_expected_ok e variant :
-  match e with EBadger | EWrapBadger => False | _ => True end -> il_oracle e (il_expected e variant) = None.
-Proof.
-  intros He. destruct e; try contradiction; destruct variant as [|[p|p|]]; vm_compute; reflexivity.
-Qed.
+(* what the two-transaction models predict is serialisable, on every engine *)
+Lemma il_expected_ok e variant : il_oracle e (il_expected e variant) = None.
+Proof. destruct e; destruct variant as [|[p|p|]]; vm_compute; reflexivity. Qed.
 
-(* on Badger they predict exactly the recorded deviation *)
-Lemma il_expected_badger variant : il_oracle EBadger (il_expected EBadger variant) = Some 4.
-Proof. destruct variant as [|[p|p|]]; vm_compute; reflexivity. Qed.
+(* regression: the answer Badger gave before the repair of finding C11-F4 (its own conflict error, class other) is
+   rejected *)
+Lemma il_old_badger_rejected : il_oracle EBadger (true, ROther, false, true) = Some 0.
+Proof. reflexivity. Qed.
 
 Lemma il_obs_eqb_eq x y : il_obs_eqb x y = true -> x = y.
 Proof.
@@ -232,7 +230,7 @@ Proof.
   destruct c as [e steps final|e n keylen failing cl visible|kind inj obs intact|e n fw bf mi ex io ap|e vr b2 c1 ot g2];
     cbn [c11_clean c11_check c11_oracle];
     [| |intros _ H; rewrite H; reflexivity|intros _ H; rewrite H; reflexivity
-     |intros He H; apply il_obs_eqb_eq in H; rewrite <- H; apply il_expected_ok; exact He].
+     |intros _ H; apply il_obs_eqb_eq in H; rewrite <- H; apply il_expected_ok].
   - intros [Hok Hnp] Hc.
     destruct (a_run (adapter_of e) (a_init (adapter_of e)) None (map fst steps)) as [sf obs] eqn:Er.
     apply andb_true_iff in Hc as [Ho Hf].
